@@ -49,6 +49,11 @@ def run(chk, repo, tier):
     L7 = chk.rule('L7', '@contextmanager generators yield exactly once on every non-raising path and never '
                         'yield again after the first yield', floor=8)
 
+    L8 = chk.rule('L8', 'bookkeeping containers are per-instance: created in __init__, never a class-level default',
+                  floor=4)
+    L9 = chk.rule('L9', 'the process-level (fcntl) unlock is reachable only when every holder table is empty '
+                        '(path condition over the emptiness flags); an upgrade never unlocks first', floor=1)
+
     classes = [c for c in m.classes.values()]
     flows = {}
     wait_sites = []      # (cls, func, while node, lockattr)
@@ -266,9 +271,19 @@ def run(chk, repo, tier):
     dels = [n for n in cfg.nodes.values() if isinstance(n.ast, ast.Delete)]
     if not destr or not dels:
         raise AnalysisError('L6: destructor call / pool entry deletion not found in ThreadSafeKeyedRefPool.__call__')
-    tests = [n for n in cfg.nodes.values() if n.kind == 'test' and isinstance(n.ast, ast.Compare)
-             and len(n.ast.ops) == 1 and isinstance(n.ast.ops[0], ast.Eq)
-             and any(isinstance(x, ast.Constant) and x.value == 1 for x in [n.ast.left, *n.ast.comparators])]
+    def _is_eq1(e):
+        return isinstance(e, ast.Compare) and len(e.ops) == 1 and isinstance(e.ops[0], ast.Eq) \
+            and any(isinstance(x, ast.Constant) and x.value == 1 for x in [e.left, *e.comparators])
+    flag_defs = {}
+    for n in walk_no_nested(pf.node):
+        if isinstance(n, ast.Assign) and len(n.targets) == 1 and isinstance(n.targets[0], ast.Name):
+            flag_defs.setdefault(n.targets[0].id, []).append(n.value)
+    eq1_flags = {k for k, v in flag_defs.items() if len(v) == 1 and _is_eq1(v[0])}
+    def _guards_last(e):
+        if _is_eq1(e) or (isinstance(e, ast.Name) and e.id in eq1_flags):
+            return True
+        return isinstance(e, ast.BoolOp) and isinstance(e.op, ast.And) and any(_guards_last(v) for v in e.values)
+    tests = [n for n in cfg.nodes.values() if n.kind == 'test' and _guards_last(n.ast)]
     for n in destr + dels:
         chk.instance(L6, f'__call__: {n.text()} guarded by refcount == 1 under pool lock')
         if not lf.must_hold(n.id, '_lock'):
@@ -302,6 +317,106 @@ def run(chk, repo, tier):
         chk.violation(L6, rel, pf.qualname, 'refcount +1 before yield / -1 after yield',
                       'reference counting of pooled objects is not symmetric around the yield', line=pf.node.lineno,
                       witness='nested or concurrent users of one path: the descriptor is closed too early or leaks')
+
+    # ---- L8 per-instance containers
+    for c in classes:
+        locks = class_lock_attrs(c)
+        if not locks:
+            continue
+        fields = class_guarded_fields(c, locks)
+        init = c.methods.get('__init__')
+        init_assigned = set()
+        if init is not None:
+            for n in walk_no_nested(init.node):
+                if isinstance(n, (ast.Assign, ast.AnnAssign)):
+                    for t in (n.targets if isinstance(n, ast.Assign) else [n.target]):
+                        if self_attr(t):
+                            init_assigned.add(self_attr(t))
+        class_level = {}
+        for n in c.node.body:
+            if isinstance(n, ast.Assign):
+                for t in n.targets:
+                    if isinstance(t, ast.Name):
+                        class_level[t.id] = n
+            elif isinstance(n, ast.AnnAssign) and isinstance(n.target, ast.Name) and n.value is not None:
+                class_level[n.target.id] = n
+        for fld in sorted(fields | locks):
+            chk.instance(L8, f'{c.name}.{fld}: assigned in __init__={fld in init_assigned}, '
+                             f'class-level default={fld in class_level}')
+            if fld in class_level or fld not in init_assigned:
+                n = class_level.get(fld)
+                chk.violation(L8, rel, c.name, unparse(n) if n is not None else f'self.{fld} never assigned in __init__',
+                              f'{c.name}.{fld} is shared by all instances (class-level mutable default) instead of being '
+                              f'created per instance in __init__', line=n.lineno if n is not None else c.node.lineno,
+                              witness='lock two different paths at overlapping times in one process: holders of path A '
+                                      'count as holders of path B (spurious WouldBlock / RecursiveDeadlock, or a writer '
+                                      'on B waits for A\'s readers and is never notified)')
+    # ---- L9 unlock only when nobody holds
+    spl = m.classes.get('ShareableProcessLock')
+    if spl is None or 'lock' not in spl.methods:
+        raise AnalysisError('ShareableProcessLock.lock not found')
+    lf = flows[spl.methods['lock'].fq]
+    cfg = lf.cfg
+    sfields = sorted(class_guarded_fields(spl, class_lock_attrs(spl)))
+    unlocks = [n for n in cfg.nodes.values() if n.ast is not None and n.kind == 'stmt' and any(
+        isinstance(x, ast.Call) and dotted(x.func) == '_process_level_unlock' for x in [n.ast, *walk_no_nested(n.ast)])]
+    if not unlocks:
+        raise AnalysisError('L9: no _process_level_unlock call in ShareableProcessLock.lock')
+    assigns = [n for n in cfg.nodes.values() if isinstance(n.ast, ast.Assign) and len(n.ast.targets) == 1
+               and isinstance(n.ast.targets[0], ast.Name)]
+
+    def latest_def(name, at):
+        doms = [a for a in assigns if a.ast.targets[0].id == name and cfg.dominates(a.id, at)]
+        best = None
+        for a in doms:
+            if all(cfg.dominates(b.id, a.id) for b in doms):
+                best = a
+        return best
+
+    def ev(e, env, at, depth=0):
+        # three-valued: True / False / None (unknown)
+        if isinstance(e, ast.Constant):
+            return bool(e.value)
+        if isinstance(e, ast.UnaryOp) and isinstance(e.op, ast.Not):
+            v = ev(e.operand, env, at, depth)
+            return None if v is None else (not v)
+        if isinstance(e, ast.BoolOp):
+            vals = [ev(v, env, at, depth) for v in e.values]
+            if isinstance(e.op, ast.Or):
+                return True if any(v is True for v in vals) else (None if any(v is None for v in vals) else False)
+            return False if any(v is False for v in vals) else (None if any(v is None for v in vals) else True)
+        if isinstance(e, ast.Call) and dotted(e.func) == 'bool' and e.args and self_attr(e.args[0]) in env:
+            return env[self_attr(e.args[0])]
+        if self_attr(e) in env:
+            return env[self_attr(e)]
+        if isinstance(e, ast.Name) and depth < 6:
+            d = latest_def(e.id, at)
+            if d is not None:
+                return ev(d.ast.value, env, d.id, depth + 1)
+        return None
+    import itertools
+    for u in unlocks:
+        doms = []
+        for t in [n for n in cfg.nodes.values() if n.kind == 'test']:
+            for lab in ('true', 'false'):
+                if cfg.edge_dominates(t.id, lab, u.id):
+                    doms.append((t, lab == 'true'))
+        chk.instance(L9, f'{u.text()} under {[("" if pol else "not ") + t.text() for t, pol in doms]}')
+        for combo in itertools.product([False, True], repeat=len(sfields)):
+            if not any(combo):
+                continue
+            env = dict(zip(sfields, combo))
+            feasible = all(ev(t.ast, env, t.id) in (None, pol) for t, pol in doms)
+            if feasible:
+                held = [f_ for f_, v in env.items() if v]
+                chk.violation(L9, rel, spl.methods['lock'].qualname, u.text() + f' reachable while {held} non-empty',
+                              'the fcntl lock of the process is released while some thread is still recorded as a holder',
+                              line=u.line,
+                              witness='thread P holds the path shared and requests it exclusively (reentrant) while '
+                                      'another process also holds it shared: P drops its kernel lock before re-locking, '
+                                      'the other process can then lock exclusively while P is still inside its shared '
+                                      'section')
+                break
 
     # ---- L7 single-yield protocol
     for f in m.functions.values():
